@@ -89,7 +89,9 @@ class StaticCase:
     def write(self, d, supplied):
         lines = ["synthetic", "", f"{self.nv} 1 3 1 1", ""]
         for v in self.vol:
-            lines += [f"P= 0.0 V= {v:.10f} E= {float(self.tabulated_energy(v)):.12f}", "0.0 0.0 0.0", "0.0", "0.0", "0.0"]
+            en = float(self.tabulated_energy(v))
+            # (plain decimals, or exponent notation with as many digits, as codes print them)
+            lines += [f"P= 0.0 V= {v:.10f} E= " + (f"{en:.14E}" if getattr(self, "exponent", False) else f"{en:.12f}"), "0.0 0.0 0.0", "0.0", "0.0", "0.0"]
         lines += ["", "weight", "0.0 0.0 0.0 1.0"]
         (d / "input01").write_text("\n".join(lines) + "\n")
         t = ["static table", f"{self.sv0:.6f} {len(self.svol)} {self.mass:.6f}", "V " + " ".join("c%d%d" % k for k in supplied)]
@@ -134,6 +136,7 @@ def main(ctx, replay=None):
         for pn, (_, mode, has_table, with_sys, with_mass, ntv, has_density, rowrule, sample, stride, nrows_spec) in enumerate(picks):
             system = str(rng.choice(["hexagonal", "cubic", "tetragonal6", "orthorhombic", "trigonal6"])) if with_sys else None
             sc = StaticCase(rng, exports, system)
+            sc.exponent = bool(pn % 3 == 1)
             # every third invocation works on the files of the one before it, rewritten in place (same paths, other material, same process)
             same_paths = bool(pn % 3 == 2 and prev_d is not None)
             d = prev_d if same_paths else Path(tempfile.mkdtemp(dir=tmp))
@@ -172,7 +175,7 @@ def main(ctx, replay=None):
                 # as a user types it: a decimal number that is `sample` times delta_p (the floating-point quotient may fall on either side)
                 args += ["--delta-p-sample", repr(round(sample * (dp if mode == "pressure" else 1.0), 6))]
             case = {"mode": mode, "table": has_table, "system": system, "cellmass": with_mass, "ntv": ntv, "sample": sample, "volume_order": sc.order,
-                    "same_paths_as_previous": same_paths}
+                    "same_paths_as_previous": same_paths, "energies_in_exponent_notation": sc.exponent}
             ctx.count(case, nontrivial=has_table or mode != "none")
             sig = {"mode": mode, "table": has_table}
             r = CliRunner().invoke(static_main, args)
